@@ -88,6 +88,7 @@ fn check_accessors(v: &mut V, tx: &Transaction, r: &RTx, b: &[u8]) {
         v.eq("get_unlocking_script_hex", i.get_unlocking_script_hex(), hex::encode(&ri.script));
         v.eq("get_unlocking_script_size", i.get_unlocking_script_size(), ri.script.len() as u64);
         v.eq("get_outpoint_bytes(Some(true))", i.get_outpoint_bytes(Some(true)), ri.outpoint_wire());
+        v.eq("get_outpoint_hex(Some(true))", i.get_outpoint_hex(Some(true)), hex::encode(ri.outpoint_wire()));
         v.eq("TxIn::is_coinbase", i.is_coinbase(), ri.is_coinbase_outpoint());
         v.eq("TxIn::to_bytes", i.to_bytes().ok(), Some(ri.encode()));
     }
